@@ -19,6 +19,7 @@ fn main() {
         "makediff" => makediff(&args[2..]),
         "makediff-pairs" => makediff_pairs(&args[2..]),
         "linescan" => linescan(&args[2..]),
+        "newline" => newline(&args[2..]),
         _ => {
             eprintln!("usage: rfv-unit <makediff|makediff-pairs> ...");
             std::process::exit(2);
@@ -459,5 +460,58 @@ fn linescan(args: &[String]) {
         };
         let extra = (xorshift(&mut rng) % 3) as usize;
         emit(&lines, mw, ts, eoo, eou, skipped, sel, extra);
+    }
+}
+
+
+// ---------------------------------------------------------------------------
+// C08: apply_newline_style on every text over {c, CR, LF} up to a length.
+// ---------------------------------------------------------------------------
+fn newline(args: &[String]) {
+    use rustfmt_nightly::NewlineStyle;
+    let max: usize = args[0].parse().unwrap();
+    let out = std::io::stdout();
+    let mut out = std::io::BufWriter::new(out.lock());
+    let syms = ["c", "cr", "lf"];
+    let render = |t: &[usize]| -> String {
+        t.iter().map(|&i| ['x', '\r', '\n'][i]).collect()
+    };
+    let abstr = |s: &str| -> Vec<&'static str> {
+        s.chars()
+            .map(|c| match c {
+                '\r' => "cr",
+                '\n' => "lf",
+                _ => "c",
+            })
+            .collect()
+    };
+    let mut texts: Vec<Vec<usize>> = vec![vec![]];
+    let mut frontier: Vec<Vec<usize>> = vec![vec![]];
+    for _ in 0..max {
+        let mut next = vec![];
+        for t in &frontier {
+            for i in 0..3 {
+                let mut u = t.clone();
+                u.push(i);
+                next.push(u);
+            }
+        }
+        texts.extend(next.iter().cloned());
+        frontier = next;
+    }
+    let raws = ["", "x\n", "x\r\n", "\n", "\r\nx\n", "xx", "x\ny\r\n"];
+    for (n, t) in texts.iter().enumerate() {
+        let text = render(t);
+        let raw = raws[n % raws.len()];
+        let win = verif::apply_newline_style(NewlineStyle::Windows, &text, raw);
+        let unix = verif::apply_newline_style(NewlineStyle::Unix, &text, raw);
+        let auto = verif::apply_newline_style(NewlineStyle::Auto, &text, raw);
+        writeln!(
+            out,
+            "{}",
+            json!({"text": t.iter().map(|&i| syms[i]).collect::<Vec<_>>(), "win": abstr(&win),
+                   "unix": abstr(&unix), "auto_out": abstr(&auto), "raw": abstr(raw)})
+        )
+        .unwrap();
     }
 }
